@@ -173,9 +173,9 @@ func init() {
 		Assumptions: []string{"memory driver (the refusal path is driver independent up to CheckAndSaveNonce, whose driver behaviour C05 and C12 cover)"},
 		Units: func(tier string) []vh.Unit {
 			var us []vh.Unit
-			depth, n := 2, 8
+			depth, n := 3, 16
 			if tier == "thorough" {
-				depth, n = 3, 32
+				depth, n = 4, 48
 			}
 			for s := 0; s < n; s++ {
 				us = append(us, c06Unit(depth, s, n))
